@@ -136,6 +136,17 @@ type Op struct {
 	Vars    map[string]ArgVal  `json:"vars"`
 	Sel     []*Sel             `json:"sel"`
 	Tags    []string           `json:"tags"`
+	// Doc, when set, is the whole document the operation is posted in (it then holds other
+	// operations too and the operation is selected by operationName)
+	Doc string `json:"doc"`
+}
+
+// DocText is the document text to post for op.
+func (w *World) DocText(op *Op) string {
+	if op.Doc != "" {
+		return op.Doc
+	}
+	return w.OpText(op)
 }
 
 // Fill replaces nil maps and slices by empty ones (the TLA+ Json module cannot read null).
@@ -244,7 +255,9 @@ func renderArgVal(v ArgVal) string {
 		var parts []string
 		m := v["v"].(map[string]interface{})
 		for _, k := range strs(v["k"]) {
-			parts = append(parts, k+": "+renderArgVal(m[k].(map[string]interface{})))
+			if e, ok := m[k]; ok {
+				parts = append(parts, k+": "+renderArgVal(e.(map[string]interface{})))
+			}
 		}
 		return "{" + strings.Join(parts, ", ") + "}"
 	}
@@ -383,7 +396,9 @@ func renderArgExpr(e ArgExpr) string {
 		var parts []string
 		m := e["v"].(map[string]interface{})
 		for _, k := range strs(e["k"]) {
-			parts = append(parts, k+": "+renderArgExpr(m[k].(map[string]interface{})))
+			if x, ok := m[k]; ok {
+				parts = append(parts, k+": "+renderArgExpr(x.(map[string]interface{})))
+			}
 		}
 		return "{" + strings.Join(parts, ", ") + "}"
 	}
